@@ -717,7 +717,7 @@ class Verifier:
                 cur = fr.locals[nm]
                 fr.locals[nm] = self.havoc_like(st, cur, nm)
             # else: first bound inside the loop and not declared: stays unbound
-        if self.loop_touches_ghost(node):
+        if self.loop_touches_ghost(node, st):
             self.havoc_ghost(st, cls)
         for fld, sp in getattr(cls, "loop_modifies_self", {}).get(ordinal, {}).items():
             (st, v), = list(self.make(st, sp, "self." + fld))
@@ -786,9 +786,57 @@ class Verifier:
     def eval_value(self, st, fn, env):
         return self.call_spec(st, fn, env, by_name=True)
 
-    def loop_touches_ghost(self, node):
+    def loop_touches_ghost(self, node, st):
+        """May an iteration reach the device (the only thing that changes ghost state)?  Conservative:
+        method calls on objects / opaque device handles, and calls of repo functions without a `pure`
+        contract count; builtins, methods of builtin kinds and loggers do not."""
+        fr = st.frames[-1]
         for x in ast.walk(node):
-            if isinstance(x, ast.Call):
+            if not isinstance(x, ast.Call):
+                continue
+            f = x.func
+            if isinstance(f, ast.Attribute):
+                root = f
+                while isinstance(root, ast.Attribute):
+                    root = root.value
+                if isinstance(root, ast.Call):
+                    return True
+                if not isinstance(root, ast.Name):
+                    continue
+                try:
+                    v = self.ip.lookup_name(st, root.id)
+                except Unsupported:
+                    return True
+                if isinstance(v, Obj):
+                    chain = []
+                    y = f
+                    while isinstance(y, ast.Attribute):
+                        chain.append(y.attr)
+                        y = y.value
+                    if "logger" in chain:
+                        continue
+                    return True
+                if isinstance(v, Opaque) and v.tag not in ("logger",):
+                    return True
+                if isinstance(v, (ClassVal, ModuleVal)) and not (isinstance(v, ModuleVal) and v.path is None):
+                    return True
+                continue
+            if isinstance(f, ast.Name):
+                try:
+                    v = self.ip.lookup_name(st, f.id)
+                except Unsupported:
+                    return True
+                if isinstance(v, Builtin):
+                    continue
+                if isinstance(v, FuncVal):
+                    c = self.contract_for_function(v)
+                    if c is not None and c.pure:
+                        continue
+                    return True
+                if isinstance(v, ClassVal):
+                    if I.is_exc_class(v):
+                        continue
+                    return True
                 return True
         return False
 
